@@ -490,6 +490,7 @@ def _load_worker(job):
     before_nodes = [[9, {"type": 17, "ver": "2.0", "bat": 1, "sn": "keep", "sv": "", "hb": 0, "sl": False, "rb": False, "ch": []}]]
     # (k % 4 == 2: the registry holds text that an ASCII-escaped file can carry but UTF-8 cannot: a lone surrogate)
     before_odd = [[9, {"type": 17, "ver": "2.0", "bat": 1, "sn": "keep\ud83d", "sv": "", "hb": 0, "sl": False, "rb": False, "ch": []}]]
+    seen_cls: dict[str, int] = {}
     try:
         for k, (cls, content, tagged) in enumerate(items):
             path = os.path.join(d, f"f-{k}.json")
@@ -498,11 +499,13 @@ def _load_worker(job):
                     fil.write(content)
             gw = _new_gateway(path)
             # (json files: every fifth one is loaded into a registry that already holds a node the file does not mention)
-            seeded = (cls in ("missing", "empty") and k % 2 == 0) or (cls == "json" and k % 5 == 0)
+            seen_cls[cls] = seen_cls.get(cls, 0) + 1
+            nth = seen_cls[cls] - 1          # (per class, so that the mix does not depend on how many other files precede)
+            seeded = (cls in ("missing", "empty") and nth % 2 == 0) or (cls == "json" and k % 5 == 0)
             if seeded:
-                gwdriver.build_registry(gw, before_odd if (cls == "missing" and k % 4 == 2) else before_nodes)
+                gwdriver.build_registry(gw, before_odd if (cls == "missing" and nth % 4 == 2) else before_nodes)
             before = proj(gw)["nodes"]
-            via_context = (k % 3 == 0)
+            via_context = (k % 3 == 0) if cls not in ("missing", "empty") else (nth % 3 == 0)
             try:
                 if via_context:
                     async def enter(g=gw):
@@ -517,7 +520,7 @@ def _load_worker(job):
             except BaseException as err:  # noqa: BLE001
                 res = "other:" + type(err).__name__
             again = False
-            if cls == "missing" and res == "ok" and k % 3 != 1 and os.path.exists(path):
+            if cls == "missing" and res == "ok" and nth % 3 != 1 and os.path.exists(path):
                 # the created file disappears again and the same object loads once more (a second session of the
                 # same gateway, or a second call of load): a missing file is created whenever it is found missing
                 again = True
@@ -613,7 +616,7 @@ def check_c14() -> int:
                         {"1": dict(node, children={"0": dict(child, description="@@")})},
                         {"1": dict(node, children={"0": dict(child, values={"0": "@@"})})}, {"1": dict(node, protocol_version="@@")}):
                 items.append(("rawjson", json.dumps(doc).replace("@@", esc).encode(), null))
-        for _ in range(6):
+        for _ in range(12):
             items.append(("empty", b"", null))
             items.append(("missing", None, null))
         jobs = [(items[i:i + 150], i) for i in range(0, len(items), 150)]
